@@ -531,10 +531,28 @@ class Walker:
         self.emit('await', n, pc, callee=ir.callee(inner) if inner.get('k') == 'Call' else None, value=v)
         return v, c
 
+    _IO_ERR = ('dyn std::error::Error', 'SendError', 'std::io::Error', 'LinesCodecError', 'RecvError', 'Elapsed', 'JoinError')
+
     def ev_Try(self, n, pc):
         v, c = self.ev(n['e'], pc)
         self.emit('try', n, pc, value=v)
-        return payload(v, 'Ok') if v is not None else ('unit',), c
+        if v is None:
+            return ('unit',), c
+        # `x?` on a value whose failure is a decision of the program (parse / validation errors, an absent Option) continues only
+        # when x is Ok/Some and returns the error otherwise; `?` on I/O results (socket, queue, timer) is not a decision any rule
+        # reasons about and stays transparent
+        try:
+            ty = self.prog.ty(n['e'])
+        except Exception:
+            ty = ''
+        if ty and not any(x in ty for x in self._IO_ERR) and (ty.startswith('std::result::Result<') or ty.startswith('std::option::Option<')):
+            okv = 'Some' if ty.startswith('std::option::Option<') else 'Ok'
+            cond = is_variant(v, okv)
+            if cond != T:
+                if cond != F:
+                    self.fr.returns.append((And(pc, c, Not(cond)), v if okv == 'Ok' else ('none',)))
+                return payload(v, okv), And(c, cond)
+        return payload(v, 'Ok'), c
 
     def ev_Trace(self, n, pc):
         return ('unit',), T
@@ -948,7 +966,12 @@ class Walker:
                 return recv
 
         # ---- maps and sets
-        if name in ('contains_key', 'contains') and len(args) == 2 and _is_coll_type(recv_ty):
+        # entry API: map.entry(k).or_default() / or_insert(v) / or_insert_with(f) is the slot of k (created when absent)
+        if name in ('or_default', 'or_insert', 'or_insert_with') and isinstance(recv, tuple) and recv[:1] == ('call',) and \
+                recv[1].split('::')[-1] == 'entry' and len(recv) >= 4:
+            self.emit('call', n, pc, **data)
+            return ('idx', recv[2], recv[3])
+        if name in ('contains_key', 'contains') and len(args) == 2 and _is_coll_type(recv_ty) and not cl[1]:
             if _is_map_type(recv_ty) or _is_set_type(recv_ty):
                 self.emit('query', n, pc, coll=recv, key=args[1], name=name, recv_ty=recv_ty)
             # loop-carried state: a membership test inside a loop that itself inserts into / removes from the same container
@@ -1032,6 +1055,13 @@ class Walker:
             if name == 'try_for_each':
                 return ('call', path, recv)
             return ('unit',)
+        if name == 'contains' and len(args) == 2 and cl[1] and ('str' in (recv_ty or '') or 'String' in (recv_ty or '')):
+            # str::contains(|c| ..)  ==  str::find(|c| ..).is_some()
+            e, facts = self.elem_of(recv, n['args'][0], pc)
+            self.loops.append(('for', n.get('hid'), recv, n))
+            cv, _ = self.apply_closure(cl[1], [e], And(pc, facts))
+            self.loops.pop()
+            return mk_bool(Atom(('is', ('find', recv, as_formula(cv)), 'Some')))
         if name in ('any', 'all', 'find', 'position') and len(args) == 2 and cl[1]:
             e, facts = self.elem_of(recv, n['args'][0], pc)
             self.loops.append(('for', n.get('hid'), recv, n))
@@ -1086,9 +1116,28 @@ class Walker:
         last = path.split('::')[-1]
         if last in self.inline:
             return True
-        if self.inline_pred is not None:
-            return self.inline_pred(path)
+        if self.inline_pred is not None and self.inline_pred(path):
+            return True
+        # a crate-local function that did not exist when the rules were written (an extracted helper) has no summary any rule
+        # knows about: look through it
+        kf = _known_fns()
+        if kf and path in self.prog.bodies and path not in kf and '::test::' not in path and '{closure' not in path:
+            return True
         return False
+
+
+_KNOWN_FNS = None
+
+
+def _known_fns():
+    global _KNOWN_FNS
+    if _KNOWN_FNS is None:
+        p = _os.path.join(_os.path.dirname(_os.path.dirname(_os.path.abspath(__file__))), 'rules', 'known_fns.txt')
+        try:
+            _KNOWN_FNS = set(l.strip() for l in open(p) if l.strip())
+        except OSError:
+            _KNOWN_FNS = set()
+    return _KNOWN_FNS
 
 
 def _simple_variant(p):
